@@ -1,6 +1,6 @@
 """Source of MANIFEST.json (run ./tools_manifest.py after editing)."""
 
-FIX_COMMITS = ['aa8a796', 'e19c32a', '9330350', '8599158', '33efd15', '1cc24ab', '668079e', 'f34decb', 'f0c9eb4', 'f63685a', 'f41aea7', '4c9fae6']
+FIX_COMMITS = ['aa8a796', 'e19c32a', '9330350', '8599158', '33efd15', '1cc24ab', '668079e', 'f34decb', 'f0c9eb4', 'f63685a', 'f41aea7', '4c9fae6', '89fa7aa', '44add83', '3e6a5c9', '24d79b7', '9b58b2c', '783304e', 'f6c2ece', '8bd765a']
 
 _ALL = ['C%02d' % i for i in range(1, 21)]
 
@@ -77,6 +77,80 @@ CHECKS.append(dict(
          'the docstrings/unit tests; inputs restricted to the documented domains (increasing thresholds, sigma > 0, a < c < b, '
          'mu_m >= 1, disjoint nests, no subnormal literals). Seven defects found by this check were repaired (fix: commits).',
     technique='property-based testing (Hypothesis): helper expressions vs reference closed forms, quadrature, exec round trip of generated code',
+))
+
+CHECKS.append(dict(
+    id='C05',
+    text='Generated choice situations (2-6 alternatives with arbitrary integer labels, linear-in-parameters utilities over '
+         'generated rows, availability columns with the chosen alternative available or the full choice set, nests with '
+         'alternatives left alone, overlapping nests with allocation parameters as numbers/Numeric/fixed or free Beta, '
+         'mu_m >= mu >= 1, object or legacy tuple syntax) are evaluated once per alternative for logit, nested, nested with scale, '
+         'cross-nested (+scale) and MEV with user-supplied ln G_i; probabilities must lie in [0,1], sum to one, vanish for '
+         'unavailable alternatives, be invariant under a common shift of the utilities, agree with independently coded '
+         'closed forms and with exp of the log version. Ordered logit/probit with 2-6 categories likewise.',
+    note='Closed forms coded from the textbook definitions (biogeme convention alpha^(mu_m/mu)); tolerance 1e-9 (1e-7 ordered '
+         'probit: engine normal CDF); utilities bounded to |V| <= 60.',
+    technique='property-based testing (Hypothesis): validity predicates (range, sum, zero when unavailable), metamorphic shift invariance, reference closed forms',
+))
+CHECKS.append(dict(
+    id='C18',
+    text='Hypothesis-generated MDCEV models (4 variants x outside good x prices x scale x parameter kind, 2-5 goods with arbitrary '
+         'integer labels and dictionary orders, 1-2 rows, 1-2 Gumbel draws, budgets 0.2-400, two settings of each tolerance). '
+         'Every bisection forecast is judged against the Kuhn-Tucker conditions of the consumer problem using independently '
+         'written U, U\', U\'\': non-negativity, budget within what the stopping tolerances allow, equal marginal utility on '
+         'consumed goods, no larger marginal utility at zero for the others, outside good consumed, objective not below the '
+         'feasible projection of the brute-force solution; everything repeated after relabelling and reordering. Numeric utility, '
+         'symbolic utility (engine) and the report formula are compared three ways, likewise derivative and inverse.',
+    note='Trusted: the utilities, derivatives and consumer problem of reports/mdcev/mdcev.tex, strict concavity on gamma > 0, '
+         '0 < alpha < 1, epsilon column j belonging to index_to_key[j] (column order is undocumented and not asserted). '
+         'Parameters are Beta or Numeric, labels non-negative integers; two defects found were repaired (fix: commits).',
+    technique='property-based testing (Hypothesis): independent closed-form KKT oracle, relabelling metamorphic relation, three-way numeric/symbolic/report comparison',
+))
+
+CHECKS.append(dict(
+    id='C14',
+    text='Four generated sub-checks. (1) Synthetic results objects built by the library\'s own RawResults / bioResults (K = 1-5; '
+         'Hessian negative definite, singular, indefinite or absent; optional bootstrap, bounds, null model, panel, Monte-Carlo) are '
+         'pickled and reloaded, twice, and through estimate(recycle=True); every table, statistic, report and raw field must be '
+         'bit-identical. (2) Any subset of the 27 configuration parameters set to admissible values (both booleans, all algorithm '
+         'names, integers to 1e40, floats 5e-324..inf, arbitrary strings) is dumped, hand-edited in the ways the reader documents, '
+         'and read back over up to three cycles: values == with the same base type. (3) HTML, LaTeX, F12 and printed reports are '
+         'read back as tables / fixed columns: every parameter name and value is required. (4) Histories of up to 18 '
+         'output-generating operations in a directory pre-seeded with colliding names: a sha256 snapshot of every earlier file '
+         'stays unchanged and every reported name is new.',
+    note='Trusts the stub model behind RawResults (attributes copied from a real estimation), pickle/numpy determinism within one '
+         'process, tomlkit parsing; value agreement to 3 significant digits (1e-11 relative in F12). NaN configuration values and '
+         'directories/symlinks as colliding names are outside the domain. Reports of Hessian-free results are a listed known finding.',
+    technique='property-based round-trip and invariant testing (Hypothesis): report readers as independent oracle, file-system snapshots over generated operation histories',
+))
+CHECKS.append(dict(
+    id='C16',
+    text='Random catalog structures (1-6 controllers of size 1-6; catalogs with own, shared or borrowed controllers; nested catalogs; '
+         'the same catalog used twice; segmentation_catalogs and generic_alt_specific_catalogs; catalogs inside bioMultSum/Elem/'
+         'LogLogit) are compared with an independent structural model: number and set of configurations equal the product of '
+         'controller choices; identifiers spell the choices, round-trip and are independent of listing order; iteration visits each '
+         'configuration once; after configure_catalogs every catalog shows the member of its controller and the engine value '
+         '(and get_value / database-free value) equals the hand-substituted catalog-free formula bit for bit and the reference '
+         'within bounds, across histories on one formula object; every operator of prepare_operators stays inside the space, makes '
+         'its documented move, and increase/decrease are inverse.',
+    note='Trusts vlib/refsem and the documented form of segmented / alt-specific parameters; names free of ; and : and unique; at '
+         'most 100 configurations where the enumerated set is used; betas given for free parameters only. Two defects found '
+         'were repaired (fix: commits).',
+    technique='property-based testing (Hypothesis) over JSON specs with configuration/operator histories: independent structural model + hand substitution, differential against the catalog-free formula',
+))
+CHECKS.append(dict(
+    id='C19',
+    text='Generated alternative tables (3-12; arbitrary integer ids, int/float columns, shuffled order), partitions into 1-4 strata '
+         'with sample sizes 1..n, 1-8 individuals, 0-3 combined-variable trees, linear-in-parameter utilities, optional second (MEV) '
+         'sample and numpy seeds. Every row returned by ChoiceSetsGeneration.sample_and_merge is checked against the protocol '
+         '(chosen first, no duplicates, exactly k members per stratum, own attributes, ln(k/n), n/k), combined variables are '
+         'recomputed by the reference semantics, and the log likelihoods of GenerateModel.get_logit / get_nested_logit / '
+         'get_cross_nested_logit are compared at 1e-9 with independently coded models on the sampled sets and, when every stratum '
+         'is sampled completely, on the full choice set; marginal inclusion frequencies are tested; documented refusals are checked.',
+    note='Trusts vlib/refsem, numpy log-sum-exp references, numpy seeding and scipy.stats.binom (tail 1e-12); names outside the '
+         'collision domain of the <column>_<position> flattening, ids < 2^24, no 99999/NaN values; nested/CNL with a second sample '
+         'covering the nests. One defect found was repaired (fix: commit).',
+    technique='property-based testing (Hypothesis): protocol invariants per generated row, reference-model oracle, full-sampling equivalence, inclusion-frequency test',
 ))
 
 _claimed = {c['id'] for c in CHECKS}
